@@ -31,6 +31,7 @@ func runC12(c *an.Ctx) {
 	r12i(c)
 	r12j(c)
 	r12k(c)
+	r12l(c)
 }
 
 const ccPkg = "core/controlcommands"
@@ -710,4 +711,36 @@ func r12j(c *an.Ctx) {
 	if n == 0 {
 		c.Lost("the send of commit's response to the entry's callback in CommandQueue.Start")
 	}
+}
+
+// R12l: commit turns "an error and no response" into an error entry for that target. RunCommand therefore hands back
+// either a response or an error, never both: a (stale or placeholder) response returned together with the error makes
+// the unreachable or silent target look as if it had answered without error.
+func r12l(c *an.Ctx) {
+	c.Rule("R12l", "RunCommand returns a nil response whenever it returns an error", 1)
+	fn := c.MustFn(ccPkg, "Servent.RunCommand")
+	if fn == nil {
+		return
+	}
+	c.Subject()
+	var bad []string
+	n := 0
+	for _, r := range an.Returns(fn) {
+		if len(r.Results) != 2 {
+			continue
+		}
+		n++
+		resp, err := an.RetVal(r, 0), an.RetVal(r, 1)
+		if an.IsNilConst(resp) || an.IsNilConst(err) {
+			continue
+		}
+		// a response built from the error itself is an error answer, too
+		if an.DerivesFrom(resp, err) {
+			continue
+		}
+		bad = append(bad, c.PosStr(lastPos(r.Block())))
+	}
+	sort.Strings(bad)
+	c.Ob("(*core/controlcommands.Servent).RunCommand|response-or-error", fn.Pos(), len(bad) == 0 && n > 0,
+		"RunCommand can return a response together with an error (at %v): the collector only substitutes an error answer when there is no response, so a target that could not be reached or did not answer in time is reported without error and a critical task's failure is lost", bad)
 }
